@@ -77,6 +77,9 @@ std::pair<bool, VectorXd> SUKFCorrection::getLikelihood()
 
 void SUKFCorrection::correctStep(const GaussianMixture& pred_state, GaussianMixture& corr_state)
 {
+    /* No likelihood is available unless this correction succeeds. */
+    innovations_.resize(0, 0);
+
     /* Get the current measurement if available. */
     bool valid_measurement;
     Data measurement;
